@@ -277,7 +277,7 @@ class DoubleProxDC(Instance):
         self.phi, pc = _func(cfg, 'phi', self.X, P.SMOOTH_FAMILIES)
         self.g, _ = _func(cfg, 'g', self.K.range)
         nrm = P.op_norm_true(self.K)
-        lip = self.phi.grad_lipschitz
+        lip = P.true_lipschitz(cfg['phi'])
         if not np.isfinite(lip):
             raise Reject('phi without finite Lipschitz constant')
         self.gamma = cfg['gamma_frac'] / (nrm + lip + 1.0)
@@ -389,7 +389,7 @@ class ProxGrad(Instance):
         self.f, _ = _func(cfg, 'f', self.X)
         self.g, _ = _func(cfg, 'g', self.X, ('l2sq', 'l2sq_trans', 'huber',
                                              'quadpert_smooth'))
-        lip = self.g.grad_lipschitz
+        lip = P.true_lipschitz(cfg['g'])
         if not np.isfinite(lip) or lip <= 0:
             raise Reject('no Lipschitz constant')
         self.gamma = cfg['gamma_frac'] / lip
@@ -469,7 +469,7 @@ class SteepestDescent(Instance):
         self.X = P.build_space(cfg['X'])
         self.f, _ = _func(cfg, 'f', self.X, ('l2sq', 'l2sq_trans', 'huber',
                                              'quadpert_smooth'))
-        lip = self.f.grad_lipschitz
+        lip = P.true_lipschitz(cfg['f'])
         if not np.isfinite(lip) or lip <= 0:
             raise Reject('no Lipschitz constant')
         self.step = cfg['step_frac'] / lip
@@ -564,7 +564,7 @@ class ForwardBackward(_MultiOp):
         _MultiOp.__init__(self, cfg)
         self.h, _ = _func(cfg, 'h', self.X, ('l2sq', 'l2sq_trans', 'huber',
                                              'zero', 'quadpert_smooth'))
-        beta = self.h.grad_lipschitz
+        beta = P.true_lipschitz(cfg['h'])
         if not np.isfinite(beta):
             raise Reject('h without Lipschitz constant')
         # 2 * min(1/tau, 1/sigma_i) * min(eta, rho) * sqrt(1 - tau sum sigma_i |L_i|^2) > 1
@@ -614,7 +614,7 @@ class DCA(Instance):
         self.f, _ = _func(cfg, 'f', self.X)
         self.g, _ = _func(cfg, 'g', self.X, ('l2sq', 'l2sq_trans', 'huber',
                                              'quadpert_smooth'))
-        lip = self.g.grad_lipschitz
+        lip = P.true_lipschitz(cfg['g'])
         self.gamma = cfg['gamma_frac'] / (lip + 1.0)
         g = np_rng('x0', cfg['seed'])
         self.state0 = {'x': P.rand_elem(self.X, g)}
